@@ -23,17 +23,29 @@ use crate::{
     },
 };
 
+/// How deep Embedded Signature subpackets may be nested.
+const MAX_EMBEDDED_SIGNATURE_DEPTH: usize = 8;
+
 impl Signature {
     /// Parses a `Signature` packet from the given buffer
     ///
     /// Ref: <https://www.rfc-editor.org/rfc/rfc9580.html#name-signature-packet-type-id-2>
-    pub fn try_from_reader<B: BufRead>(packet_header: PacketHeader, mut i: B) -> Result<Self> {
+    pub fn try_from_reader<B: BufRead>(packet_header: PacketHeader, i: B) -> Result<Self> {
+        Self::try_from_reader_embedded(packet_header, i, 0)
+    }
+
+    /// `embedded_depth`: how many signatures this one is embedded in (via Embedded Signature subpackets)
+    fn try_from_reader_embedded<B: BufRead>(
+        packet_header: PacketHeader,
+        mut i: B,
+        embedded_depth: usize,
+    ) -> Result<Self> {
         let version = i.read_u8().map(SignatureVersion::from)?;
 
         let signature = match version {
             SignatureVersion::V2 | SignatureVersion::V3 => v3_parser(packet_header, version, i)?,
-            SignatureVersion::V4 => v4_parser(packet_header, version, i)?,
-            SignatureVersion::V6 => v6_parser(packet_header, i)?,
+            SignatureVersion::V4 => v4_parser(packet_header, version, i, embedded_depth)?,
+            SignatureVersion::V6 => v6_parser(packet_header, i, embedded_depth)?,
             _ => {
                 let rest = i.rest()?.freeze();
                 Signature::unknown(packet_header, version, rest)
@@ -102,6 +114,7 @@ fn v4_parser<B: BufRead>(
     packet_header: PacketHeader,
     version: SignatureVersion,
     mut i: B,
+    embedded_depth: usize,
 ) -> Result<Signature> {
     debug_assert_eq!(version, SignatureVersion::V4);
 
@@ -116,7 +129,7 @@ fn v4_parser<B: BufRead>(
     // Hashed subpacket data set (zero or more subpackets).
     let hsub_len: usize = i.read_be_u16()?.into();
     let hsub_raw = i.read_take(hsub_len);
-    let hsub = subpackets(packet_header.version(), hsub_len, hsub_raw)?;
+    let hsub = subpackets(packet_header.version(), hsub_len, hsub_raw, embedded_depth)?;
     debug!(
         "found {} hashed subpackets in {} bytes",
         hsub.len(),
@@ -127,7 +140,7 @@ fn v4_parser<B: BufRead>(
     // Unhashed subpacket data set (zero or more subpackets).
     let usub_len: usize = i.read_be_u16()?.into();
     let usub_raw = i.read_take(usub_len);
-    let usub = subpackets(packet_header.version(), usub_len, usub_raw)?;
+    let usub = subpackets(packet_header.version(), usub_len, usub_raw, embedded_depth)?;
     debug!(
         "found {} unhashed subpackets in {} bytes",
         usub.len(),
@@ -154,7 +167,11 @@ fn v4_parser<B: BufRead>(
 
 /// Parse a v6 signature packet
 /// Ref: https://www.rfc-editor.org/rfc/rfc9580.html#name-versions-4-and-6-signature-
-fn v6_parser<B: BufRead>(packet_header: PacketHeader, mut i: B) -> Result<Signature> {
+fn v6_parser<B: BufRead>(
+    packet_header: PacketHeader,
+    mut i: B,
+    embedded_depth: usize,
+) -> Result<Signature> {
     // One-octet signature type.
     let typ = i.read_u8().map(SignatureType::from)?;
     // One-octet public-key algorithm.
@@ -166,7 +183,7 @@ fn v6_parser<B: BufRead>(packet_header: PacketHeader, mut i: B) -> Result<Signat
     // Hashed subpacket data set (zero or more subpackets).
     let hsub_len: usize = i.read_be_u32()?.try_into()?;
     let hsub_raw = i.read_take(hsub_len);
-    let hsub = subpackets(packet_header.version(), hsub_len, hsub_raw)?;
+    let hsub = subpackets(packet_header.version(), hsub_len, hsub_raw, embedded_depth)?;
     debug!(
         "found {} hashed subpackets in {} bytes",
         hsub.len(),
@@ -177,7 +194,7 @@ fn v6_parser<B: BufRead>(packet_header: PacketHeader, mut i: B) -> Result<Signat
     // Unhashed subpacket data set (zero or more subpackets).
     let usub_len: usize = i.read_be_u32()?.try_into()?;
     let usub_raw = i.read_take(usub_len);
-    let usub = subpackets(packet_header.version(), usub_len, usub_raw)?;
+    let usub = subpackets(packet_header.version(), usub_len, usub_raw, embedded_depth)?;
     debug!(
         "found {} unhashed subpackets in {} bytes",
         usub.len(),
@@ -221,6 +238,7 @@ fn subpackets<B: BufRead>(
     packet_version: PacketHeaderVersion,
     len: usize,
     mut i: B,
+    embedded_depth: usize,
 ) -> Result<Vec<Subpacket>> {
     let mut packets = Vec::with_capacity(len.min(32));
 
@@ -234,7 +252,14 @@ fn subpackets<B: BufRead>(
         debug!("reading subpacket {typ:?}: critical? {is_critical}, len: {len}");
 
         let mut body = i.read_take(len);
-        let packet = subpacket(typ, is_critical, packet_len, packet_version, &mut body)?;
+        let packet = subpacket(
+            typ,
+            is_critical,
+            packet_len,
+            packet_version,
+            &mut body,
+            embedded_depth,
+        )?;
         debug!("found subpacket {packet:?}");
 
         if !body.rest()?.is_empty() {
@@ -254,6 +279,7 @@ fn subpacket<B: BufRead>(
     packet_len: SubpacketLength,
     packet_version: PacketHeaderVersion,
     mut body: B,
+    embedded_depth: usize,
 ) -> Result<Subpacket> {
     use super::subpacket::SubpacketType::*;
 
@@ -282,7 +308,7 @@ fn subpacket<B: BufRead>(
         RevocationReason => rev_reason(&mut body),
         Features => features(&mut body),
         SignatureTarget => sig_target(&mut body),
-        EmbeddedSignature => embedded_sig(packet_version, &mut body),
+        EmbeddedSignature => embedded_sig(packet_version, &mut body, embedded_depth),
         IssuerFingerprint => issuer_fingerprint(&mut body),
         PreferredEncryptionModes => preferred_encryption_modes(&mut body),
         IntendedRecipientFingerprint => intended_recipient_fingerprint(&mut body),
@@ -606,7 +632,15 @@ fn sig_target<B: BufRead>(mut i: B) -> Result<SubpacketData> {
 fn embedded_sig<B: BufRead>(
     packet_version: PacketHeaderVersion,
     mut i: B,
+    embedded_depth: usize,
 ) -> Result<SubpacketData> {
+    // Embedded signatures are parsed recursively: bound the nesting
+    // (a primary key binding inside a subkey binding is one level deep).
+    ensure!(
+        embedded_depth < MAX_EMBEDDED_SIGNATURE_DEPTH,
+        "embedded signatures are nested too deeply"
+    );
+
     // copy to bytes, to avoid recursive type explosion
     let signature_bytes = i.rest()?.freeze();
     let header = PacketHeader::from_parts(
@@ -614,7 +648,8 @@ fn embedded_sig<B: BufRead>(
         Tag::Signature,
         PacketLength::Fixed(signature_bytes.len().try_into()?),
     )?;
-    let sig = Signature::try_from_reader(header, signature_bytes.reader())?;
+    let sig =
+        Signature::try_from_reader_embedded(header, signature_bytes.reader(), embedded_depth + 1)?;
 
     Ok(SubpacketData::EmbeddedSignature(Box::new(sig)))
 }
